@@ -12899,13 +12899,15 @@ func (p *PathAttributeMpReachNLRI) DecodeFromBytes(data []byte, options ...*Mars
 	eCode := uint8(BGP_ERROR_UPDATE_MESSAGE_ERROR)
 	eSubCode := uint8(BGP_ERROR_SUB_ATTRIBUTE_LENGTH_ERROR)
 	eData, _ := p.PathAttribute.Serialize(value, options...)
-	if p.Length < 3 {
+	// In MRT dumps, AFI+SAFI+NLRI is implicit based on RIB Entry Header, see RFC 6396 4.3.4:
+	// the attribute then starts with the next hop length, and is a single
+	// octet for the families without next hop (FlowSpec).
+	onlyNexthop := IsMRTSerialization(options)
+	if !onlyNexthop && p.Length < 3 {
 		return NewMessageError(eCode, eSubCode, eData, "mpreach header length is short")
 	}
 
 	var family Family
-	// In MRT dumps, AFI+SAFI+NLRI is implicit based on RIB Entry Header, see RFC 6396 4.3.4
-	onlyNexthop := IsMRTSerialization(options)
 	if !onlyNexthop {
 		p.AFI = binary.BigEndian.Uint16(value[:2])
 		p.SAFI = value[2]
